@@ -42,10 +42,13 @@ Definition mail_facts_of (parse_ip : str -> bool) (arg : str) : option mailfacts
     the text behind the first "> " cut at blanks; when exactly one token names SIZE (any letter case) and it is
     SIZE=<digits>, that is what the command declares.  Wherever the command is accepted syntactically, the parser
     must have seen exactly that. *)
+(** the text behind the first "> "; no reading at all when a double quote (34) or a backslash (92) comes before it: a
+    quoted local part or a quoted pair may hold "> " inside the path; the patterns deal with that, this reading does
+    not try to *)
 Fixpoint after_path (s : str) : option str :=
   match s with
   | 62 :: 32 :: r => Some r
-  | _ :: r => after_path r
+  | c :: r => if (c =? 34) || (c =? 92) then None else after_path r
   | [] => None
   end.
 Definition w_SIZE_eq : str := [83;73;90;69;61].
@@ -65,10 +68,13 @@ Definition declared_size_spec (arg : str) : option str :=
       | _ => None
       end
   end.
+(** wherever the patterns match the command at all: the parameters were seen, were accepted, and the SIZE among them is
+    the declared one (a parser that matches but loses the parameter group fails this too) *)
 Definition size_seen_ok (arg : str) (f : mailfacts) : bool :=
-  if mf_match f && mf_params_ok f then
+  if mf_match f then
     match declared_size_spec arg with
-    | Some ds => match mf_size f with Some x => str_eqb x ds | None => false end
+    | Some ds => mf_has_params f && mf_params_ok f &&
+                 match mf_size f with Some x => str_eqb x ds | None => false end
     | None => true
     end
   else true.
